@@ -40,7 +40,8 @@ CONFIG = {
                   'thorough': {'c04.R1': 40000}},
     'must_sig': ['R1:CTL=LTL', 'R1:CTL=CTLS', 'R1:LTL=CTLS', 'R1:PL',
                  'R1:cast', 'R5:EU', 'R5:AU', 'R5:ER', 'R5:AR', 'R5:EG',
-                 'R5:AG', 'R5:EF', 'R5:AF', 'R4:ctls', 'R2:synonyms_spacing', 'R2:nary_text'],
+                 'R5:AG', 'R5:EF', 'R5:AF', 'R4:ctls', 'R2:synonyms_spacing', 'R2:nary_text',
+                 'family:A_and_E_same_path', 'family:ltl_depth2_routes'],
     'rule': ('cases = relation instances (relation, structure, formula or '
              'pair of formulas); structures: class representatives with <=2 '
              'states (quick: plus a sample of 3-state ones; thorough: all) '
@@ -55,6 +56,8 @@ CONFIG = {
 }
 
 _parsers = {}
+AE_FAMILY = []
+P2 = []
 
 
 def mc(logic, K, f):
@@ -350,6 +353,19 @@ def run(ctx):
         for b in PL1[:8]:
             shared.append(('A', ('U', a, b)))
             shared.append(('A', ('R', a, b)))
+    from ..neutral import count_ops, TEMPORAL
+    global AE_FAMILY, P2
+    P2 = [g for g in gen.enum_ltl_path(2)[len(P1):]
+          if 2 <= count_ops(g, TEMPORAL) <= 3]
+    p_, q_ = ('ap', 'p'), ('ap', 'q')
+    AE_FAMILY = []
+    for g in (('X', p_), ('F', p_), ('G', p_), ('U', p_, q_), ('R', p_, q_),
+              ('G', ('not', p_)), ('F', ('and', p_, q_)), ('X', ('not', q_))):
+        Ag, Eg = ('A', g), ('E', g)
+        AE_FAMILY += [('and', Eg, ('not', Ag)), ('imply', Eg, Ag),
+                      ('or', Ag, ('not', Eg)), ('and', ('not', Ag), Eg),
+                      ('E', ('F', ('and', Eg, ('not', Ag)))),
+                      ('A', ('G', ('imply', Eg, Ag)))]
     reps = {n: list(gen.representatives(n)) for n in (1, 2, 3)}
     if ctx.quick:
         structs = reps[1] + r.sample(reps[2], 24) + r.sample(reps[3], 20)
@@ -386,6 +402,25 @@ def run(ctx):
             logic = 'CTL' if i % 2 else 'CTLS'
             r3(logic, nk, K, f, g, i)
             i += 1
+        # the same path formula under both quantifiers in one formula
+        for t in rr.sample(AE_FAMILY, 6 if ctx.quick else 14):
+            LOG.sig['family:A_and_E_same_path'] += 1
+            r1_ctl_ctls(nk, K, t, i)
+            r1_ctl_ctls(nk, K, t, 4 * (i // 4))          # with casts
+            i += 1
+        # depth-2 LTL formulas: raw-leaf objects, wrapped objects, text and
+        # the CTL* entry point
+        for g in rr.sample(P2, 5 if ctx.quick else 12):
+            LOG.sig['family:ltl_depth2_routes'] += 1
+            t2 = ('A', g)
+            rs = [call('LTL', K, obj('LTL', t2, raw=True)),
+                  call('LTL', K, obj('LTL', t2, raw=False)),
+                  call('LTL', K, mcwork.text_of('LTL', t2)),
+                  call('CTLS', K, obj('CTLS', t2, raw=True)),
+                  call('CTLS', K, mcwork.text_of('CTLS', t2))]
+            relate('R2', 'ltl_routes', nk, K, [t2], rs,
+                   lambda r, S: all(x == r[0] for x in r),
+                   'raw-leaf object = wrapped object = text = CTL* entry')
         for _ in range(max(3, per // 3)):
             f, g = rr.choice(F1), rr.choice(F1)
             logic = 'CTL' if i % 3 else 'CTLS'
